@@ -150,12 +150,17 @@ def checkTypes (g : Node) : Except PyErr Bool :=
 
 def setNode (nodes : Nodes) (k : String) (n : Node) : Nodes := insert k n nodes
 
+/-- an element taken out of an ndarray is a numpy scalar, and numpy scalars are always native-endian (little-endian
+here): the element of a big-endian array comes out byte-swapped, with the native dtype -/
+def nativeScalar (dt : DType) (b : Bytes) : Val :=
+  .npscalar { dt with big := false } (if dt.big then b.reverse else b)
+
 /-- `v[1]`, `v[1:]`, `v[0]` on a shape value (ndarray or tuple) -/
 def shapeIndex (v : Val) (i : Nat) : Except PyErr Val :=
   match v with
   | .none => .error .typeError
   | .arr dt [n] d =>
-      if i < n then .ok (.npscalar dt ((chunks dt.size d).getD i []))
+      if i < n then .ok (nativeScalar dt ((chunks dt.size d).getD i []))
       else .error .indexError
   | .tuple xs | .list xs => match xs[i]? with | some x => .ok x | Option.none => .error .indexError
   | _ => .error unmodelled
@@ -172,7 +177,7 @@ def shapeTail (v : Val) : Except PyErr Val :=
 def tupleOfTail (v : Val) : Except PyErr Val :=
   match v with
   | .none => .error .typeError
-  | .arr dt [_] d => .ok (.tuple (((chunks dt.size d).drop 1).map fun b => Val.npscalar dt b))
+  | .arr dt [_] d => .ok (.tuple (((chunks dt.size d).drop 1).map fun b => nativeScalar dt b))
   | .tuple xs | .list xs => .ok (.tuple xs.tail)
   | _ => .error unmodelled
 
